@@ -112,14 +112,14 @@ Definition th_lookup (l : list (bool * string * sty)) (sch : bool) (n : string) 
   | None => SD 0
   end.
 
-Definition key_eqb (a b : bool * string * sty) : bool :=
+Definition key_eqb (a b : bool * string * ty) : bool :=
   let '(b1, n1, s1) := a in let '(b2, n2, s2) := b in
-  Bool.eqb b1 b2 && String.eqb n1 n2 && sty_eqb s1 s2.
+  Bool.eqb b1 b2 && String.eqb n1 n2 && ty_eqb s1 s2.
 
-Definition val_lookup (l : list (bool * string * sty * V)) (sch : bool) (n : string) (s : sty) : V :=
-  match find (fun e => key_eqb (fst e) (sch, n, s)) l with
+Definition val_lookup (thT thS : string -> sty) (l : list (bool * string * ty * V)) (sch : bool) (n : string) (T : ty) : V :=
+  match find (fun e => key_eqb (fst e) (sch, n, T)) l with
   | Some (_, v) => v
-  | None => dflt DC0 s
+  | None => dflt DC0 (tysem thT thS T)
   end.
 
 Fixpoint prodN (l : list N) : N :=
@@ -142,14 +142,14 @@ Definition falsify (sizes : list nat) (bound cap : N) (th : thm) : bool * N * na
        let thT := th_lookup theta false in
        let thS := th_lookup theta true in
        if negb (forallb (tm_small DC0 thT thS bound) ts) then (found, n, S skipped) else
-       let keys := dedup key_eqb (map (fun e => let '(b, m, T) := e in (b, m, tysem thT thS T)) fvs) in
-       let total := prodN (map (fun k => dsize DC0 (snd k)) keys) in
+       let keys := dedup key_eqb fvs in
+       let total := prodN (map (fun k => dsize DC0 (tysem thT thS (snd k))) keys) in
        if (cap <? total)%N then (found, n, S skipped) else
-       let vals := assignments keys (fun k => dom DC0 (snd k)) in
+       let vals := assignments keys (fun k => dom DC0 (tysem thT thS (snd k))) in
        let bad := existsb
          (fun val =>
-            let sigV := val_lookup val false in
-            let sigS := val_lookup val true in
+            let sigV := val_lookup thT thS val false in
+            let sigS := val_lookup thT thS val true in
             negb (thm_holds DC0 thT thS (IC_std DC0 (fun _ s => dflt DC0 s)) sigV sigS th))
          vals in
        (bad, (n + total)%N, skipped))
